@@ -16,6 +16,7 @@ mod rng;
 #[cfg(feature = "codec-std")]
 mod stacks;
 mod streams;
+mod userext;
 
 use std::collections::BTreeMap;
 use std::fs::File;
